@@ -48,7 +48,10 @@ Up(P, e, t) ==
 (* Where a leaf reads, and what its answer means (the manual's table).     *)
 (* Answers: "T"/"F" for flags and trainer flags; "lt"/"eq"/"gt" for the    *)
 (* comparison of a var with the written value.                             *)
-LeafCmpVal(lf) == IF lf.form = "cmp" THEN lf.val ELSE "0"
+(* value(...) with more than one token is passed on parenthesised.          *)
+LeafCmpVal(lf) == IF lf.form # "cmp" THEN "0"
+                  ELSE IF lf.strict /\ lf.multi THEN "( " \o lf.val \o " )"
+                  ELSE lf.val
 
 LeafLoc(lf) ==
     CASE lf.typ = "flag"     -> "flag:" \o lf.opnd
